@@ -156,6 +156,46 @@ def make_tensor(rng, dt, variant="2d"):
     return t
 
 
+def make_tensor_view(rng, how, grad):
+    """tensors that do not own their whole storage (torch.save pickles the full base storage)."""
+    base = torch.tensor((rng.normal(size=(5, 3, 4)) * 2 + 0.5).tolist(), dtype=torch.float32)
+    if how == "frame":
+        t = base[2]
+        return t.requires_grad_() if grad else t
+    if how == "slice":
+        flat = torch.tensor(rng.normal(size=12).tolist(), dtype=torch.float32)
+        t = flat[3:7]
+        return t.requires_grad_() if grad else t
+    if how == "column64":
+        m = torch.tensor(rng.normal(size=(4, 6)).tolist(), dtype=torch.float64)
+        return m[:, 2].requires_grad_()
+    w = torch.tensor(rng.normal(size=(4, 3)).tolist(), dtype=torch.float32, requires_grad=True)
+    if how == "nonleaf":
+        return (w * 2)[:2]  # non-leaf, requires grad through its history, view of the product's storage
+    if how == "nonleaf_whole":
+        return w * 2 + 1
+    raise KeyError(how)
+
+
+def make_big_array(rng, which):
+    """arrays above 4 MiB with non-zero contents everywhere (a dropped or zero-filled tail must be visible)."""
+    if which == "f32_1025":
+        a = (np.arange(1025 * 1025, dtype=np.float32).reshape(1025, 1025) % 977) + 1.0
+    elif which == "f64_600001":
+        a = np.arange(600001, dtype=np.float64) * 0.5 + 1.0
+    elif which == "c128_4d":
+        n = 7 * 20 * 65 * 65
+        a = ((np.arange(n) % 1013) + 1.0 + 1j * ((np.arange(n) % 7) + 1.0)).astype(np.complex128).reshape(7, 20, 65, 65)
+    elif which == "i64_F":
+        a = np.asfortranarray((np.arange(700 * 999, dtype=np.int64).reshape(700, 999) % 100003) + 1)
+    elif which == "u8_odd":
+        a = ((np.arange(4999 * 1001) % 251) + 1).astype(np.uint8).reshape(4999, 1001)
+    else:
+        raise KeyError(which)
+    a[-1, ...] += int(rng.integers(1, 50))  # seeded, so that two cases are not byte-identical
+    return a
+
+
 def make_npscalar(rng, name):
     if name == "bool_":
         return np.bool_(True)
@@ -242,7 +282,8 @@ def make_scheduler(rng, which):
 # ------------------------------------------------------------------------------------------------
 # kind table: name -> (builder, flags)   flags: h = hashable (may sit in a set), n = real numeric scalar
 # usable in an all-numeric sequence, N = numeric but outside the all-numeric-sequence domain,
-# A = generated as an attribute only (optimizers / schedulers: not among the property's value kinds)
+# A = generated as an attribute only (optimizers / schedulers: not among the property's value kinds),
+# B = big (> 4 MiB) array: a handful of placements only, to keep the run time bounded
 
 
 def _kinds():
@@ -290,6 +331,8 @@ def _kinds():
     for sh in ("e3", "1d", "3d", "4d", "nc", "F"):
         for dt in ("float64", "int16", "complex64"):
             add("arr:%s:%s" % (dt, sh), (lambda d, s: (lambda r: make_array(r, d, s)))(dt, sh))
+    for w in ("f32_1025", "f64_600001", "c128_4d", "i64_F", "u8_odd"):
+        add("arr:big:" + w, (lambda ww: (lambda r: make_big_array(r, ww)))(w), "B")
     for dt in TENSOR_DTYPES:
         add("tensor:%s:2d" % dt, (lambda d: (lambda r: make_tensor(r, d, "2d")))(dt))
     for dt in ("float32", "int64", "bool"):
@@ -300,6 +343,14 @@ def _kinds():
     add("tensor:float32:nc", lambda r: torch.tensor(r.normal(size=(4, 6)).tolist(), dtype=torch.float32)[::2, ::3])
     add("tensor:parameter", lambda r: torch.nn.Parameter(make_tensor(r, "float32", "2d")))
     add("tensor:parameter_nograd", lambda r: torch.nn.Parameter(make_tensor(r, "float32", "2d"), requires_grad=False))
+    # views of a larger storage (one frame of a stack, a slice, a slice of a non-leaf result), with and without grad
+    add("tensor:view_frame_grad", lambda r: make_tensor_view(r, "frame", True))
+    add("tensor:view_slice_grad", lambda r: make_tensor_view(r, "slice", True))
+    add("tensor:view_nonleaf_grad", lambda r: make_tensor_view(r, "nonleaf", True))
+    add("tensor:view_frame", lambda r: make_tensor_view(r, "frame", False))
+    add("tensor:view_slice", lambda r: make_tensor_view(r, "slice", False))
+    add("tensor:nonleaf_whole_grad", lambda r: make_tensor_view(r, "nonleaf_whole", True))
+    add("tensor:view_f64_col_grad", lambda r: make_tensor_view(r, "column64", True))
     for w in ("linear", "sequential", "custom", "eval", "modulelist"):
         add("module:" + w, (lambda ww: (lambda r: make_module(r, ww)))(w))
     for w in ("sgd", "adam"):
@@ -343,6 +394,17 @@ def _kinds():
     add("list:arrays", lambda r: [make_array(r, "float32", "2d"), make_array(r, "int64", "0d"), make_array(r, "uint8", "e1")])
     add("list:tensors", lambda r: [make_tensor(r, "float32"), make_tensor(r, "int64", "0d")])
     add("list:objects", lambda r: [make_leaf(r), make_leaf(r, _sg().Other)])
+    # widths crossing 10 and 100 (stored item by item under the keys '0', '1', ..., '10', ...: order must be numeric)
+    add("list:strings12", lambda r: ["item%02d_%d" % (i, int(r.integers(9))) for i in range(12)])
+    add("list:pairs23", lambda r: [["name%d" % i, i] for i in range(23)])
+    add("tuple:wide_mixed", lambda r: tuple([i, "s%d" % i, None, 2.5 * i, Path("p%d" % i)][i % 5] for i in range(17)))
+    add("list:wide101", lambda r: ["s%d" % i if i % 3 else i for i in range(101 + int(r.integers(4)))])
+    add("list:wide_arrays", lambda r: [np.full((2,), i, dtype=np.int16) if i % 2 else "a%d" % i for i in range(13)])
+    add("list:long_at_depth", lambda r: [{"k": [["deep%d" % i, i, None] for i in range(12)]}, ("x", ["w%d" % i for i in range(11)])])
+    add("tuple:wide_nested", lambda r: tuple((i, "t%d" % i) for i in range(14)))
+    add("dict:wide", lambda r: {"key%d" % i: (i if i % 2 else "v%d" % i) for i in range(25)})
+    add("set:wide_strings", lambda r: {"m%d" % i for i in range(12)} | {None})
+    add("list:wide_objects", lambda r: [make_leaf(r) if i % 4 == 0 else "o%d" % i for i in range(12)])
     add("list:deep", lambda r: [[[["deep", 1, [2.5]]]], ({"k": [(1, 2), {"z": None}]},)])
     add("tuple:ints", lambda r: (1, 2, int(r.integers(3, 99))), "h")
     add("tuple:hetero", lambda r: (1, "a", None, (2, 3)), "h")
@@ -391,6 +453,8 @@ def placement_ok(kind, placement):
     flags = KINDS[kind][1]
     if "A" in flags and placement not in ("attr", "nested_attr"):
         return False
+    if "B" in flags:
+        return placement == "attr" or (kind == "arr:big:f32_1025" and placement in ("list1", "dict")) or (kind == "arr:big:f64_600001" and placement == "listmix")
     if placement in ("set1", "setmix") and "h" not in flags:
         return False
     if "N" in flags and placement in ("list1", "tuple1", "set1", "list_in_dict"):
